@@ -3,12 +3,15 @@
 (* events recorded from the real SortedDeque are checked against the       *)
 (* ordered-map A-spec of Sorted.tla; the physical projection (hook H1) is  *)
 (* compared with the I-spec and reported as DRIFT only.                    *)
-EXTENDS Sorted, TLC, Json, IOUtils
+EXTENDS FiniteSets, Sorted, TLC, Json, IOUtils
 
 Rec == ndJsonDeserialize(IOEnv.TRACE)
 
 VARIABLES l, live, s, mode, failed, viol, drift
 vars == <<l, live, s, mode, failed, viol, drift>>
+
+\* keep the violation set small (per property): a broken build can fail tens of thousands of runs
+CapViol(v, new) == v \cup {x \in new : Cardinality({y \in v : y.prop = x.prop}) < 25}
 
 Init == l = 1 /\ live = OInit /\ s = IInit /\ mode = "kv" /\ failed = FALSE /\ viol = {} /\ drift = {}
 
@@ -48,7 +51,7 @@ Next ==
              /\ s' = ir.st
              /\ mode' = mode
              /\ failed' = (bad # {})
-             /\ viol' = viol \cup {[run |-> e.run, line |-> l, prop |-> w[1], what |-> w[2]] : w \in bad}
+             /\ viol' = CapViol(viol, {[run |-> e.run, line |-> l, prop |-> w[1], what |-> w[2]] : w \in bad})
              /\ drift' = IF bad = {} /\ e.obs_panic = "" /\ (e.phys # IView(ir.st) \/ e.consumed # ir.st.k \/ e.clen # Len(ir.st.c))
                          THEN drift \cup {[run |-> e.run, line |-> l, what |-> "physical items/consumed/container length differ from transcription"]}
                          ELSE drift
